@@ -207,6 +207,10 @@ def gen_rule_cases(rng, n, rule_pool=None, with_scores=True):
             cases.append({"rule": rule, "cfg": {"m": 1 + k, "tiebreak": "borda"}, "profile": jp,
                           "seed": rng.randrange(1 << 30), "family": "four-way-pair-tie"})
         for k in range(2):
+            jp, names = gen.three_way_leader_tie(rng)
+            cases.append({"rule": rule, "cfg": {"m": 2 + (k % 2) * 0, "tiebreak": "borda"}, "profile": jp,
+                          "seed": rng.randrange(1 << 30), "family": "three-way-leader-tie"})
+        for k in range(2):
             jp, names = gen.fine_secondary_tie(rng)
             cases.append({"rule": rule, "cfg": {"m": 1, "tiebreak": "borda"}, "profile": jp,
                           "seed": rng.randrange(1 << 30), "family": "fine-secondary-tie"})
